@@ -55,6 +55,28 @@ Fixpoint map_res {X Y} (f : X -> res Y) (l : list X) : res (list Y) :=
 Definition res_of_result {X} (r : result X) (k : X -> res (result X)) : res (result X) :=
   match r with Ok x => k x | Err e => Val (Err e) end.
 
+(* ---------- size / capacity decisions (no element data involved) ---------- *)
+(* shape.into().try_to_axis_shape(order)? ; check_size(shape.size())? — the prologue of with_default, with_value,
+   with_initializer, resize, the TryFrom impls and (with the result shape) multiply *)
+Definition decide_shape (c : cfg) (es : Z) (o : order) (r cl : Z) : res (result (AxisShape * Z)) :=
+  match Shape_try_to_axis_shape c (mkShape r cl) o with
+  | Err e => Val (Err e)
+  | Ok sh =>
+    let* sz0 := AxisShape_size c sh in
+    match check_size c es sz0 with
+    | Err e => Val (Err e)
+    | Ok sz => Val (Ok (sh, sz))
+    end
+  end.
+(* reshape: any overflow and any size different from the current one is SizeMismatch *)
+Definition reshape_decision (c : cfg) (o : order) (len : Z) (r cl : Z) : res (result AxisShape) :=
+  match Shape_try_to_axis_shape c (mkShape r cl) o with
+  | Err _ => Val (Err SizeMismatch)
+  | Ok sh =>
+    let* sz := AxisShape_size c sh in
+    if negb (len =? sz) then Val (Err SizeMismatch) else Val (Ok sh)
+  end.
+
 Section Ops.
 Context {A : Type}.
 Variable c : cfg.
@@ -99,25 +121,19 @@ Definition set_order_wr m (o : order) : matrix A :=
 
 (* ---------- lib.rs: reshape / resize / clear ---------- *)
 Definition reshape m (r cl : Z) : res (result (matrix A)) :=
-  match Shape_try_to_axis_shape c (mkShape r cl) (m_order m) with
-  | Err _ => Val (Err SizeMismatch)
-  | Ok sh =>
-    let* sz := AxisShape_size c sh in
-    if negb (size m =? sz) then Val (Err SizeMismatch)
-    else Val (Ok (mkMatrix (m_order m) sh (m_data m)))
+  let* d := reshape_decision c (m_order m) (size m) r cl in
+  match d with
+  | Err e => Val (Err e)
+  | Ok sh => Val (Ok (mkMatrix (m_order m) sh (m_data m)))
   end.
 
 Definition resize (dflt : A) m (r cl : Z) : res (result (matrix A)) :=
-  match Shape_try_to_axis_shape c (mkShape r cl) (m_order m) with
+  let* d := decide_shape c es (m_order m) r cl in
+  match d with
   | Err e => Val (Err e)
-  | Ok sh =>
-    let* sz0 := AxisShape_size c sh in
-    match check_size c es sz0 with
-    | Err e => Val (Err e)
-    | Ok sz =>
-      if sz <=? size m then Val (Ok (mkMatrix (m_order m) sh (zfirstn sz (m_data m))))
-      else Val (Ok (mkMatrix (m_order m) sh (m_data m ++ zrepeat dflt (sz - size m))))
-    end
+  | Ok (sh, sz) =>
+    if sz <=? size m then Val (Ok (mkMatrix (m_order m) sh (zfirstn sz (m_data m))))
+    else Val (Ok (mkMatrix (m_order m) sh (m_data m ++ zrepeat dflt (sz - size m))))
   end.
 
 Definition clear m : matrix A := mkMatrix (m_order m) (mkAxisShape 0 0) [].
@@ -264,16 +280,7 @@ Definition contains (eqb : A -> A -> bool) m (v : A) : bool := existsb (fun x =>
 (* ---------- construct.rs / convert.rs ---------- *)
 Definition new_matrix : matrix A := mkMatrix RowMajor (mkAxisShape 0 0) [].
 
-Definition decide_ctor (r cl : Z) : res (result (AxisShape * Z)) :=
-  match Shape_try_to_axis_shape c (mkShape r cl) RowMajor with
-  | Err e => Val (Err e)
-  | Ok sh =>
-    let* sz0 := AxisShape_size c sh in
-    match check_size c es sz0 with
-    | Err e => Val (Err e)
-    | Ok sz => Val (Ok (sh, sz))
-    end
-  end.
+Definition decide_ctor (r cl : Z) : res (result (AxisShape * Z)) := decide_shape c es RowMajor r cl.
 
 Definition with_value (r cl : Z) (v : A) : res (result (matrix A)) :=
   let* d := decide_ctor r cl in
@@ -381,20 +388,21 @@ Definition get_nth_major_axis_vector {X} (m : matrix X) (n : Z) : res (list X) :
   let* upper := uadd c lower (AxisShape_major_stride (m_shape m)) in
   slice_unchecked (m_data m) lower upper.
 
+(* conformability, then the size / capacity decision on nrows(lhs) x ncols(rhs) in lhs's order, for the output element size *)
+Definition mul_decision (a : matrix L) (b : matrix R) : res (result (AxisShape * Z)) :=
+  if negb (is_mul_conformable a b) then Val (Err ShapeNotConformable)
+  else decide_shape c esU (m_order a) (nrows a) (ncols b).
+
 (* multiplication_like_operation; `op` sees row i of lhs and column j of rhs *)
 Definition multiplication_like_operation (op : list L -> list R -> res U) (a : matrix L) (b : matrix R)
   : res (result (matrix U)) :=
-  if negb (is_mul_conformable a b) then Val (Err ShapeNotConformable) else
   let nr := nrows a in
   let nc := ncols b in
   let order := m_order a in
-  match Shape_try_to_axis_shape c (mkShape nr nc) order with
+  let* d := mul_decision a b in
+  match d with
   | Err e => Val (Err e)
-  | Ok sh =>
-    let* sz0 := AxisShape_size c sh in
-    match check_size c esU sz0 with
-    | Err e => Val (Err e)
-    | Ok sz =>
+  | Ok (sh, sz) =>
       if ncols a =? 0 then Val (Ok (mkMatrix order sh (zrepeat dflt sz))) else
       let* a' := set_order c esL a RowMajor in
       let* b' := set_order c esR b ColMajor in
@@ -408,7 +416,6 @@ Definition multiplication_like_operation (op : list L -> list R -> res U) (a : m
         | ColMajor => let* cols := map_res (fun col => map_res (fun row => cell row col) (zseq nr)) (zseq nc) in Val (concat cols)
         end in
       Val (Ok (mkMatrix order sh data))
-    end
   end.
 
 (* mul.rs dot_product(..).unwrap_unchecked() *)
